@@ -557,10 +557,28 @@ impl<'a> Binder<'a> {
                     }
                 }
                 // Use the alias if available, otherwise use the expression's output name
-                let field_name = aggregate_aliases
+                let mut field_name = aggregate_aliases
                     .get(i)
                     .and_then(|a| a.as_ref().cloned())
                     .unwrap_or_else(|| expr.output_name());
+                // The Aggregate's output columns are addressed BY NAME from the
+                // projection above it. A select alias that repeats the name of a
+                // GROUP BY column (`SELECT k AS a, MIN(a) AS k ... GROUP BY k`) or of
+                // an earlier aggregate would give the node two columns of one name and
+                // the projection would read the first — the group key instead of the
+                // aggregate. The alias is applied by the projection anyway; inside the
+                // Aggregate node fall back to the expression's own (unique) name.
+                let taken = |name: &str, fields: &[SchemaField]| {
+                    fields.iter().any(|f| f.name.eq_ignore_ascii_case(name))
+                };
+                if taken(&field_name, &agg_fields) {
+                    field_name = expr.output_name();
+                    let mut n = 1;
+                    while taken(&field_name, &agg_fields) {
+                        field_name = format!("{}#{}", expr.output_name(), n);
+                        n += 1;
+                    }
+                }
                 let data_type = expr.data_type(&input_schema)?;
                 agg_fields.push(SchemaField::new(field_name, data_type));
             }
